@@ -53,10 +53,36 @@ def pos(n):
 
 def run(ctx, rep):
     m = ctx.m
-    qset(ctx, rep)
-    linked(ctx, rep)
-    predicates(ctx, rep)
+    # (the former structural rules R1-R4 -- pairing tables, statement order, witness expressions -- described *how*
+    #  the mutators are written and flagged behaviour-preserving rewrites; they are replaced by the black-box folds R7-R9)
+    blackbox(ctx, rep)
     folded(ctx, rep)
+
+
+def blackbox(ctx, rep):
+    from .. import ordset
+    m = ctx.m
+    deep = rep.tier == 'thorough'
+    for rid, name, fold, floor, what in (
+            ('C18.R7', 'qset', ordset.fold_qset_blackbox, 1200, 'tools/hybrids.qset'),
+            ('C18.R8', 'linqset', ordset.fold_linqset_blackbox, 1400, 'tools/linked.linqset (links, hash table, wedge)'),
+            ('C18.R9', 'Predicates', ordset.fold_predicates_blackbox, 600, 'lang/collect.Predicates (no two members share a symbol with different arities; every member found by each reference)')):
+        R = rep.rule(rid, f'{what}: every operation of the mutator API applied to every small state (the class rebuilt from its own method '
+                          f'definitions through the MRO, collections.abc mixins real) agrees with the list-without-duplicates model when observed '
+                          f'through the read API; a rejected single operation changes nothing; copies are independent')
+        res, cons = fold(m, deep=deep)
+        rep.consult(*cons)
+        seen = set()
+        for ok, op, case, detail in res:
+            rep.instance(R, ok=ok, sample=dict(case=case) if len(seen) < 2 and ok else None, nontrivial=(name, case))
+            if not ok:
+                key = (op, detail.split(':')[0][:50])
+                if key in seen:
+                    continue
+                seen.add(key)
+                rep.finding(R, f'{rid}/{name}/{op}/{len(seen)}', m.relfile({'qset': 'pytableaux.tools.hybrids', 'linqset': 'pytableaux.tools.linked', 'Predicates': 'pytableaux.lang.collect'}[name]),
+                            f'{name}.{op}', f'{case}: {detail}')
+        rep.floor(rid, f'{name} operation x state cases', len(res), floor)
 
 
 def folded(ctx, rep):
